@@ -226,7 +226,7 @@ class WebSocketApp:
             return
         while not stop_ping.wait(self.ping_interval) and self.keep_running is True:
             if self.sock and self.sock is sock:
-                self.last_ping_tm = time.time()
+                self.last_ping_tm = time.monotonic()
                 try:
                     _logging.debug("Sending ping")
                     sock.ping(self.ping_payload)
@@ -449,7 +449,7 @@ class WebSocketApp:
             elif op_code == ABNF.OPCODE_PONG:
                 if self.last_pong_tm < self.last_ping_tm:
                     # the first pong after a ping answers it; further ones are unsolicited
-                    self.last_pong_tm = time.time()
+                    self.last_pong_tm = time.monotonic()
                 self._callback(self.on_pong, frame.data)
             elif op_code == ABNF.OPCODE_CONT and self.on_cont_message:
                 self._callback(self.on_data, frame.data, frame.opcode, frame.fin)
@@ -471,7 +471,7 @@ class WebSocketApp:
                 # the ping thread updates last_ping_tm concurrently: judge one consistent snapshot
                 last_ping_tm = self.last_ping_tm
                 last_pong_tm = self.last_pong_tm
-                has_timeout_expired = time.time() - last_ping_tm > self.ping_timeout
+                has_timeout_expired = time.monotonic() - last_ping_tm > self.ping_timeout
                 has_pong_not_arrived_after_last_ping = last_pong_tm - last_ping_tm < 0
                 has_pong_arrived_too_late = (
                     last_pong_tm - last_ping_tm > self.ping_timeout
